@@ -459,7 +459,7 @@ def compute_cardinalities(input_dataframe: pd.DataFrame, pbar: Any, max_unique_h
 
         for unique_value in unique_values:
             if unique_value:
-                GLOBAL_CARDINALITY_STORAGE[column].add(internal_hash(unique_value))
+                GLOBAL_CARDINALITY_STORAGE[column].add(internal_hash(str(unique_value)))
 
         pbar.set_description(f'Computing cardinality (Hyperloglog update) {enx+1}/{input_dataframe.shape[1]}')
 
